@@ -423,6 +423,19 @@ fn run_cursor_item(b: &mut Built, drv: &mut Driver, case: &Value, item: &Value, 
   if cls == "hang" {
     return;
   }
+  // the mechanism model of the unchanged decoder says "panic" but the code answered: either
+  // the decoder was repaired or the legacy model is wrong — the canonical witness decides
+  let predicted = if fast { &m["legacy_fast"] } else { &m["legacy_hex"] };
+  if predicted == &json!("panic") {
+    let mut probe = base.clone();
+    probe["cursor"] = json!(format!("a{}b", "é".repeat(20)));
+    let still_panics = matches!(run_text(b, &probe.to_string()), Out::Panic { ref msg, .. } if msg.contains("Utf8Error"));
+    if still_panics {
+      s.disagree("cursor.legacy-model-predicts-a-panic-that-did-not-happen", &sub, out.brief(), m.clone());
+    } else {
+      s.count("cursor.decoder-repaired-in-code");
+    }
+  }
   if fast {
     let Some(_) = gen else {
       s.count("cursor.generation-unknown");
@@ -517,7 +530,7 @@ fn run_script_item(b: &mut Built, drv: &mut Driver, case: &Value, item: &Value, 
   let reads_field = m["fields"].as_array().map(|a| !a.is_empty()).unwrap_or(true);
   if let (Out::Ok(v), false, true) = (&out, reads_field, live > 0) {
     let hits = v["hits"].as_array().cloned().unwrap_or_default();
-    let want: Option<f32> = m["eval"].as_f64().map(|x| x as f32).filter(|x| x.is_finite());
+    let want: Option<f32> = m["eval_bits"].as_u64().map(|b| f64::from_bits(b) as f32).filter(|x| x.is_finite());
     match want {
       None => {
         s.count("script.value-dropped");
@@ -689,6 +702,16 @@ fn run_plan_item(b: &mut Built, drv: &mut Driver, case: &Value, item: &Value, s:
   // the loop with the assertion runs once per segment, only when there are scored terms
   let expected = if b.segments == 0 || m["qualified"].as_array().map(|a| a.is_empty()).unwrap_or(true) { "fine" } else { verdict };
   if real != expected {
+    if expected == "inconsistent-leaf" && real == "fine" {
+      // either the assertion was repaired in the code or the model is wrong about this query:
+      // the canonical witness on the same index decides
+      let probe = json!({"query": "rust body:rust", "limit": 5, "return_stored": false, "highlight_field": null});
+      let repaired = !matches!(run_text(b, &probe.to_string()), Out::Panic { ref msg, .. } if msg.contains("Inconsistent leaf for term key"));
+      if repaired {
+        s.count("plan.assertion-absent-in-code");
+        return;
+      }
+    }
     s.disagree("plan.assertion-verdict", &sub, json!({"real": real, "outcome": out.brief(), "segments": b.segments}), m);
   }
 }
